@@ -41,6 +41,7 @@ func runC13(c *Ctx) {
 	commaOkDeref(c, "C13.R6b", pkgFuncs(c.P, "pkg/gossip"), 1)
 	c13R4(c)
 	c13Errs(c)
+	c13Labels(c)
 	if g := newGossipAnchors(c.P); g.ok {
 		gsR1(c, g, "C13.R5")
 	} else {
@@ -1124,4 +1125,130 @@ func testedValueLeaf(leaf *ssa.Call, em emitted) (ssa.Value, bool) {
 		}
 	}
 	return limit, uses > 0
+}
+
+// c13Labels (C13.R9): received strings never reach a panicking metrics API
+// unvalidated. `(*prometheus.XVec).With` panics when a label value is not valid
+// UTF-8, and the packet listeners have no recover: one forged datagram would
+// end the process. Decided in two halves: (a) in pkg/gossip every label value
+// handed to `With`/`WithLabelValues` is a constant, a strconv.Format* result, or
+// the ID of a node state (followed through helper parameters to the call
+// sites); (b) a node enters the table from received data only under the fact
+// utf8.ValidString(id) (so every ID held by a node state is a valid label).
+func c13Labels(c *Ctx) {
+	p := c.P
+	g := newGossipAnchors(p)
+	if !g.ok {
+		return
+	}
+	c.floor("C13.R9", 4)
+	isPanickingWith := func(cc *ssa.CallCommon) bool {
+		n := commonName(cc)
+		return strings.HasPrefix(n, "(*github.com/prometheus/client_golang/prometheus.") && (strings.HasSuffix(n, "Vec).With") || strings.HasSuffix(n, "Vec).WithLabelValues"))
+	}
+	var safe func(v ssa.Value, depth int) (bool, string)
+	safe = func(v ssa.Value, depth int) (bool, string) {
+		v = strip(v)
+		if _, ok := v.(*ssa.Const); ok {
+			return true, "constant"
+		}
+		if cl, ok := v.(*ssa.Call); ok {
+			switch commonName(&cl.Call) {
+			case "strconv.FormatBool", "strconv.Itoa", "strconv.FormatInt", "strconv.FormatUint", "strings.ToValidUTF8":
+				return true, "formatted"
+			}
+		}
+		if _, ok := loadedField(v, g.idF); ok {
+			return true, "the ID of a node state"
+		}
+		if _, ok := loadedField(v, g.localIDF); ok {
+			return true, "the local id"
+		}
+		if pv, ok := v.(*ssa.Parameter); ok && depth < 3 {
+			fn := pv.Parent()
+			idx := -1
+			for k, pp := range fn.Params {
+				if pp == pv {
+					idx = k
+				}
+			}
+			sites := 0
+			for _, e := range p.callersOf(fn) {
+				cf := e.Caller.Func
+				if cf == nil || isTestFile(p.Fset, cf.Pos()) || e.Site == nil || !inModule(cf) {
+					continue
+				}
+				args := e.Site.Common().Args
+				if idx < 0 || idx >= len(args) {
+					return false, "a call site does not bind the label parameter"
+				}
+				sites++
+				if ok, why := safe(args[idx], depth+1); !ok {
+					return false, "called from " + fnName(cf) + " with " + why
+				}
+			}
+			if sites > 0 {
+				return true, "safe at every call site"
+			}
+		}
+		return false, "a string that is neither constant, formatted, nor a table node's ID: " + path(v)
+	}
+	for _, fn := range pkgFuncs(p, "pkg/gossip") {
+		allInstrs(fn, func(i ssa.Instruction) {
+			cc := callCommon(i)
+			if cc == nil || !isPanickingWith(cc) {
+				return
+			}
+			bad := ""
+			for _, a := range cc.Args[1:] {
+				if mm, ok := strip(a).(*ssa.MakeMap); ok {
+					for _, r := range *mm.Referrers() {
+						if mu, ok := r.(*ssa.MapUpdate); ok {
+							if ok2, why := safe(mu.Value, 0); !ok2 {
+								k, _ := constString(mu.Key)
+								bad = "label " + k + ": " + why
+							}
+						}
+					}
+					continue
+				}
+				if ok2, why := safe(a, 0); !ok2 {
+					bad = why
+				}
+			}
+			c.check(bad == "", "C13.R9", fnName(fn)+"/label-values", i.Pos(), "label values are constants, formatted numbers/booleans, or IDs of table nodes", "a panicking metrics call receives "+bad)
+		})
+	}
+	// (b) IDs enter the table validated
+	all := g.allWrites()
+	isValid := func(f Fact, key ssa.Value) bool {
+		cl, ok := f.V.(*ssa.Call)
+		if !ok || !f.T {
+			return false
+		}
+		if commonName(&cl.Call) == "unicode/utf8.ValidString" && len(cl.Call.Args) == 1 {
+			return sameValue(cl.Call.Args[0], key)
+		}
+		return false
+	}
+	for _, fn := range sortedFuncs(all) {
+		if strings.HasPrefix(baseName(fn), "new") {
+			continue
+		}
+		for _, w := range all[fn] {
+			if w.kind != "nodes-insert" {
+				continue
+			}
+			key := w.key
+			ok := p.holdsUp(fn, w.instr.Block(), key, func(base ssa.Value, fx []Fact) bool {
+				return anyFact(fx, func(f Fact) bool { return isValid(f, base) })
+			}, 0)
+			if !ok {
+				// the key is usually a field load (entry.ID): look for the fact on the same access path
+				ok = anyFact(computeFacts(fn).At(w.instr.Block()), func(f Fact) bool { return isValid(f, key) })
+			}
+			c.check(ok, "C13.R9", fnName(fn)+"/node-id-validated", w.instr.Pos(), "a received node id enters the table only under utf8.ValidString(id)",
+				"a node whose id was received from the network is stored without checking that the id is valid UTF-8; the id is later used as a metrics label value, and prometheus' With panics on invalid UTF-8: one forged datagram (or join stream) crashes the node - there is no recover on the packet path")
+		}
+	}
 }
